@@ -348,7 +348,7 @@ static void build_alphabets(bool T)
     // time tags: immediately, dates x times of day x float-representable fractions
     TIMES.push_back(pf::Imm());
     const int dates[4][3] = {{1970, 1, 2}, {2000, 2, 29}, {2016, 11, 16}, {2037, 12, 31}};
-    const int tod[3][3] = {{0, 0, 0}, {0, 1, 0}, {12, 34, 56}};
+    const int tod[6][3] = {{0, 0, 0}, {0, 1, 0}, {12, 34, 56}, {0, 0, 7}, {5, 0, 0}, {23, 59, 59}};
     const uint32_t fr[5] = {0, 0x80000000u, 0x40000000u, 0x20000000u, 0x00001000u};
     for(auto &d : dates) for(auto &t : tod) for(uint32_t f : fr) TIMES.push_back(pf::Tt(pf::utc_secs(d[0], d[1], d[2], t[0], t[1], t[2]), f));
 
@@ -425,7 +425,7 @@ int main(int argc, char **argv)
     vp::bound("arrays", "every homogeneous array of length 0..4 over 3 values per element type (14 element types), alone and between scalars; arrays of 1..2 (thorough 3) arrays over 6 inner arrays; arrays holding a run of length 3..8 with an optional extra element");
     vp::bound("strings", "every string of length 0..3 over {a \" \\ \\n ' ' % 1} + identifiers + reserved words + one 130-char string, as s and S, alone and between neighbours");
     vp::bound("chars", T ? "every printable ASCII char and C escape, alone and every ordered pair" : "6 chars in V; every printable ASCII char and C escape alone");
-    vp::bound("time_tags", "immediately + 4 dates x {00:00:00,00:01:00,12:34:56} x fraction {0,.5,.25,.125,2^-20}; alone, before and behind every value of V; plus a lattice of fractions: leading bit 2^-1..2^-32 x 6 mantissa shapes of up to 24 bits, on two dates");
+    vp::bound("time_tags", "immediately + 4 dates x {00:00:00,00:01:00,12:34:56,00:00:07,05:00:00,23:59:59} x fraction {0,.5,.25,.125,2^-20}; alone, before and behind every value of V; plus a lattice of fractions: leading bit 2^-1..2^-32 x 6 mantissa shapes of up to 24 bits, on two dates");
     vp::bound("floats", T ? "sign x every exponent x mantissa {0,1,2^k,all ones} for f (12750); sign x every exponent x {0,1,2^51,all ones} for d (16376); finite only; alone, before i:1, behind i:-1" : "same family thinned to every 8th exponent (f) / every 64th (d)");
     vp::bound("buffers", "print buffer 8192 bytes with buffer[-1]=' '; scan scratch 8192 bytes; output array = announced count + 16 guard slots (0xA5 sentinel)");
 
@@ -609,6 +609,25 @@ int main(int argc, char **argv)
             for(int i = 0; i < k; ++i) L.push_back(a);
             if(ctx & 2) { L.push_back(pf::I(7)); L.push_back(pf::I(8)); }
             do_list("arr", idx++, L, FEW);
+        }
+    }
+    // compressed structures nested or in sequence: runs of equal arrays whose elements form a run themselves (5x[1 ... 5], 6x[5x0 7]); a run of
+    // equal arrays followed by a counting run; an arithmetic range followed by a counting run that starts at one of the range's own values
+    {
+        std::vector<PV> inner = {pf::Arr({pf::I(1), pf::I(2), pf::I(3), pf::I(4), pf::I(5)}), pf::Arr({pf::I(9), pf::I(7), pf::I(5), pf::I(3), pf::I(1), pf::I(-1)}),
+                                 pf::Arr({pf::I(0), pf::I(0), pf::I(0), pf::I(0), pf::I(0), pf::I(7)}), pf::Arr({pf::C('a'), pf::C('b'), pf::C('c'), pf::C('d'), pf::C('e')}),
+                                 pf::Arr({pf::Str("s"), pf::Str("s"), pf::Str("s"), pf::Str("s"), pf::Str("s")}), pf::Arr({pf::I(1), pf::I(2)})};
+        for(auto &a : inner) for(int k = 4; k <= 6; ++k) for(int ctx = 0; ctx < 3; ++ctx) {
+            List L; if(ctx == 1) L.push_back(pf::I(42)); for(int i = 0; i < k; ++i) L.push_back(a); if(ctx == 2) L.push_back(pf::I(7));
+            do_list("arr", idx++, L, FEW);
+            for(long d : {1L, -1L, 2L}) for(long first : {4L, 2L, 1L}) { List M = L; for(int i = 0; i < 5; ++i) M.push_back(pf::I((int32_t)(first + i * d))); do_list("arr", idx++, M, FEW); }
+        }
+        for(long d1 : {1L, 2L, -1L, 3L}) for(int len1 : {5, 6}) for(int pick = 0; pick < len1; ++pick) for(long d2 : {1L, -1L}) for(int ctx = 0; ctx < 2; ++ctx) {
+            List L; if(ctx) L.push_back(pf::Str("x"));
+            for(int i = 0; i < len1; ++i) L.push_back(pf::I((int32_t)(1 + i * d1)));
+            long start = 1 + pick * d1;                         // the second run starts at the first run's pick-th value
+            for(int i = 0; i < 5; ++i) L.push_back(pf::I((int32_t)(start + i * d2)));
+            do_list("run", idx++, L, FEW);
         }
     }
     // an array directly followed by a counting run of the array's element type (the value printed before a range decides whether
